@@ -859,9 +859,15 @@ impl<'a> MetaStoreUpdate<'a> {
                 if chunk.role_position == ChunkRolePosition::SecondChunkMaster {
                     return Ok(());
                 }
+                // When both masters were on the failed proxy, both of them move.
+                let both_moved = chunk.role_position == ChunkRolePosition::FirstChunkMaster;
                 chunk.role_position = ChunkRolePosition::SecondChunkMaster;
 
-                for migrating_slot_range in chunk.migrating_slots[0].iter_mut() {
+                let [first_slots, second_slots] = &mut chunk.migrating_slots;
+                for migrating_slot_range in first_slots
+                    .iter_mut()
+                    .chain(second_slots.iter_mut().filter(|_| both_moved))
+                {
                     migrating_slot_range.meta.epoch = new_epoch;
                     peer_position.insert((
                         migrating_slot_range.meta.src_chunk_index,
@@ -877,9 +883,15 @@ impl<'a> MetaStoreUpdate<'a> {
                 if chunk.role_position == ChunkRolePosition::FirstChunkMaster {
                     return Ok(());
                 }
+                // When both masters were on the failed proxy, both of them move.
+                let both_moved = chunk.role_position == ChunkRolePosition::SecondChunkMaster;
                 chunk.role_position = ChunkRolePosition::FirstChunkMaster;
 
-                for migrating_slot_range in chunk.migrating_slots[1].iter_mut() {
+                let [first_slots, second_slots] = &mut chunk.migrating_slots;
+                for migrating_slot_range in second_slots
+                    .iter_mut()
+                    .chain(first_slots.iter_mut().filter(|_| both_moved))
+                {
                     migrating_slot_range.meta.epoch = new_epoch;
                     peer_position.insert((
                         migrating_slot_range.meta.src_chunk_index,
